@@ -1,6 +1,7 @@
 """Source of truth for MANIFEST.json (tools/gen_manifest.py)."""
 HOOK_COMMITS = []
 ENGINES = [
+    {"name": "E4-cosim", "path": "vf/props/c14.py", "serves_properties": ["C14"], "kind_free_text": "co-simulation of compute_next_steps with a structured-program reference interpreter"},
     {"name": "E4-cfg", "path": "vf/props/c12.py", "serves_properties": ["C12"], "kind_free_text": "abstract CFG explorer for compiled flows + concrete head-move recorder"},
     {"name": "E2-aio", "path": "vf/engines/aio.py", "serves_properties": ["C15", "C19"], "kind_free_text": "virtual asyncio loop + stateless DFS schedule explorer with prefix replay"},
     {"name": "E3-world", "path": "vf/engines/world.py", "serves_properties": ["C01", "C02", "C03", "C15", "C16", "C17"], "kind_free_text": "real LLMRails in a scripted closed environment (scripted LLM, fake embeddings, stub actions); conversation BFS"},
@@ -123,5 +124,11 @@ CHECKS["C12"] = {
     "technique": "explicit-state exploration of an abstract control-flow graph of every compiled flow (state = position, failure-handler stack, open scopes, registered forks) for all generated programs up to a node bound and all shipped .co files; the abstraction is bound to the code by replaying recorded concrete head moves of the real interpreter against the graph",
     "text": "All Colang 2.x and 1.0 programs of a control grammar (if/else, while, when/or when/else, groups incl. DNF-distributed ones, break/continue, return/abort) up to 5-6 (quick) / 7 (thorough) nodes plus a rich statement family and the 210 shipped .co files: every jump / fork / failure-handler / loop-exit target exists and lies inside the flow, handler stack never pops empty, scopes never re-opened and closed at a fall-off end, no composite element left; v1: every offset read by slide/compute_next_state lands in [0,len]. Every concrete FlowHead.position assignment of interpreter runs over short histories must be an edge of the abstract graph; v1 slide() is compared with the model under all-true/all-false conditions.",
     "note": "Trusted: the abstract successor relation (validated against millions of concrete head moves); wrong-but-in-range offsets are outside the statement and not detected; heads of one flow are not modelled jointly.",
+}
+CHECKS["C14"] = {
+    "engine": "E4-cosim (v1 decision function co-simulated with a reference interpreter)", "level": "model_checking",
+    "technique": "explicit-state co-simulation: all structured Colang 1.0 flows up to a size bound, BFS over all follow/leave histories built the way the runtime builds them, real compute_next_steps vs a structured-program reference interpreter; every history evaluated on a long-lived and on a fresh flow-config instance",
+    "text": "Every statement tree up to the size bound over user/bot steps, assignments, if/else, while, execute with scripted results and do-subflow (printed to Colang, parsed by the real parser), with a second flow for leaving; at every user point the history branches over the expected intent, another flow's intent, an unknown intent; the decided next step and the resulting context must equal the reference while the history follows the flow; decisions must not depend on earlier calls on the same flow configs.",
+    "note": "Trusted: the reference interpreter (generator-based, in vf/props/c14.py); behaviour after a flow was interrupted is not specified and only checked for the history-only clause; labels/goto, when/else, break/continue are not generated. The thorough tier is time capped (reported in evidence).",
 }
 NOT_APPLICABLE = {}
